@@ -114,6 +114,27 @@ func init() {
 		}
 		out = append(out, racingScenarios(thorough)...)
 		out = append(out, timerScenarios(thorough)...)
+		for _, hostKind := range []string{"task", "sub"} {
+			for _, kind := range []string{"I", "N"} {
+				for _, per := range []bool{false, true} {
+					mode := "back-to-back"
+					if per {
+						mode = "concurrent"
+					}
+					for _, d := range []int{0, 1} {
+						if d == 1 && !thorough && (hostKind == "sub" || kind == "N") {
+							continue
+						}
+						sc := &h.Scn{Name: fmt.Sprintf("C10/%s-burst/[%s,N]/%s/noise<=4/d%d", hostKind, kind, mode, d), Body: burst(hostKind, kind, 4, per), Opts: verifrt.Options{Bound: d, UseCache: true}}
+						sc.Weight = 10 * (1 + 300*d)
+						if d == 1 {
+							sc.Split = 4
+						}
+						out = append(out, sc)
+					}
+				}
+			}
+		}
 		return out, nil
 	})
 }
@@ -285,6 +306,80 @@ func timerScenarios(thorough bool) []*h.Scn {
 		}
 	}
 	return out
+}
+
+// burst: while the host waits, n events that match no boundary event (or only the other one)
+// are delivered back-to-back in front of the matching one - from one goroutine, or each from
+// its own - without waiting for quiescence. A boundary event has a one-slot inbox, so this is
+// where a delivery that is dropped instead of queued shows. Every delivery must return, the
+// matching boundary event must continue exactly once, and for an interrupting one the host's
+// later answer must not continue the normal flow.
+func burst(hostKind, kind string, maxNoise int, perGoroutine bool) func() {
+	g := build(hostKind, []string{kind, "N"}, false)
+	defs := g.Parse()
+	sig := "C10/" + hostKind + "-burst"
+	fail := func(clause, format string, a ...any) { h.Fail(sig+clause+"#"+kind, format, a...) }
+	return func() {
+		n := verifrt.Choose(maxNoise + 1)
+		other := verifrt.Choose(2) == 1 // the noise is the other boundary event's signal (E2) or a signal nobody knows
+		r := drv.Open(g, defs, drv.OpenOpts{})
+		r.StartAll()
+		verifrt.WaitIdle()
+		target := "host"
+		if hostKind == "sub" {
+			target = "inner"
+		}
+		p := r.Pending(target)
+		if !r.StartReturned || p == nil {
+			fail("/host-requested", "the host activity is not waiting for its answer after the start (pending %v)", r.PendingIDs())
+			return
+		}
+		noise := "X"
+		if other {
+			noise = "E2"
+		}
+		returned := 0
+		send := func(ref string) { r.Signal(ref); returned++ }
+		if perGoroutine {
+			for i := 0; i < n; i++ {
+				go send(noise)
+			}
+			go send("E1")
+		} else {
+			go func() {
+				for i := 0; i < n; i++ {
+					send(noise)
+				}
+				send("E1")
+			}()
+		}
+		verifrt.WaitIdle()
+		if returned != n+1 {
+			fail("/calls-return", "%d of %d ConsumeEvent calls returned (%d x %s then E1); blocked: %v", returned, n+1, n, noise, verifrt.LiveEnvGoroutines())
+			return
+		}
+		if got := r.Requests("tx1"); got != 1 {
+			clause := "/does-not-continue/after-burst"
+			if got > 1 {
+				clause = "/continues-too-often/after-burst"
+			}
+			fail(clause, "after %d x %s and then E1 delivered in a burst while the host waits, the exception flow of b1 continued %d times, want 1", n, noise, got)
+			return
+		}
+		if other && n > 0 && r.Requests("tx2") > n {
+			fail("/continues-too-often/after-burst", "the non-interrupting boundary event b2 continued %d times for %d deliveries", r.Requests("tx2"), n)
+			return
+		}
+		r.Answer(p)
+		verifrt.WaitIdle()
+		want := 1
+		if kind == "I" {
+			want = 0
+		}
+		if got := r.Requests("tn"); got != want {
+			fail("/normal-flow", "after the burst the host was answered: the normal flow continued %d times, want %d", got, want)
+		}
+	}
 }
 
 func racingScenarios(thorough bool) []*h.Scn {
